@@ -155,6 +155,25 @@ PROPS.update({
 })
 
 
+# Every single-run property is also monitored (and compared with the model) on the runs of the
+# multi-run cases: histories (H), pairs (Y call+call, Z stream+stream, W stream+call).  A change that
+# only bites when runs share a graph, a thread or an InterruptibilityState still breaks the single-run
+# guarantee of the run it bites.
+MULTI_RUN = {'C01': 'HYZW', 'C02': 'HYZW', 'C03': 'HYZW', 'C04': 'HYW', 'C05': 'HZW', 'C06': 'HYZW', 'C07': 'HYW',
+             'C08': 'HYZW', 'C09': 'HYW', 'C10': 'HYW'}
+
+
+def _single_only(f, default=True):
+    return (lambda c: default if c.kind not in ('X', 'S') else f(c)) if f else None
+
+
+for _p, _ks in MULTI_RUN.items():
+    _spec = PROPS[_p]
+    _spec['kinds'] = list(_spec['kinds']) + [k for k in _ks if k not in _spec['kinds']]
+    _spec['relevant'] = _single_only(_spec.get('relevant'))
+    _spec['nontrivial'] = _single_only(_spec.get('nontrivial'))
+
+
 # properties whose theorem also rests on the builder layer: the builder bundle is evaluated too
 _B_EDGES = dict(bundle='builder', tags=['B', 'E'], kinds=['B'], monitor=rb.mon_c11, rule='', tagproj={'E': lambda v: ' '.join(sorted(v.split()))}, nontrivial=lambda c: 'D' in c.obs.get('E', ''))
 PROPS['C01']['also'] = [_B_EDGES]
